@@ -114,6 +114,7 @@ public:
       // (a worker between its wait predicate and its blocking holds this mutex:
       // the state cannot change, and the notification be lost, in that window)
       std::lock_guard lg(shared_mutex);
+      LIBCSD_VERIF_POINT(PT_POOL_ADD_LOCKED, 0, 0);
       queue.add_task(task);
     }
     LIBCSD_VERIF_POINT(PT_POOL_ENQUEUED, 0, 0);
@@ -129,6 +130,7 @@ public:
   void stop_all_workers() {
     {
       std::lock_guard lg(shared_mutex);
+      LIBCSD_VERIF_POINT(PT_POOL_STOP_LOCKED, 0, 0);
       for (auto &w : workers)
         w->stop();
     }
